@@ -256,17 +256,16 @@ Section WithCrypto.
     d <-- get_disk ;;;
     lift (missing_nodes (c_tree c) (d_tree d) index).
 
+  (* make_read_only: both header slots are rewritten also when the instance is already read-only (a crash during
+     an earlier call can have left the secret in the slot that is not current); the result says whether the
+     instance was writable *)
   Definition core_make_read_only : M bool :=
     c <-- get_core ;;;
-    match kp_secret (c_keypair c) with
-    | Some _ =>
-        let k := mkKeypair (kp_public (c_keypair c)) None in
-        put_keypair k ;;;
-        put_header (set_keypair (c_header c) (mkKeypair (kp_public (hd_keypair (c_header c))) None)) ;;;
-        flush_all true ;;;
-        ret true
-    | None => ret false
-    end.
+    let changed := match kp_secret (c_keypair c) with Some _ => true | None => false end in
+    put_keypair (mkKeypair (kp_public (c_keypair c)) None) ;;;
+    put_header (set_keypair (c_header c) (mkKeypair (kp_public (hd_keypair (c_header c))) None)) ;;;
+    flush_all true ;;;
+    ret changed.
 
   (* ---------- Hypercore::new ---------- *)
 
